@@ -104,12 +104,16 @@ class Run:
             self.lemmas |= p.ghost.get("auto_lemmas", set())
             self.covered |= p.covered
             for ob in p.obligations:
-                extra = solve.analytic_instances(ob.assumptions + [ob.goal])
-                text = solve.to_smt2(ob.assumptions, ob.goal, extra)
+                text = solve.to_smt2(ob.assumptions, ob.goal, ())
                 meta = dict(ob.meta)
                 meta["deps"] = deps
-                lean = solve.analytic_instances(ob.assumptions + [ob.goal], rounds=1, lean=True)
-                meta["_lean_smt2"] = solve.to_smt2(ob.assumptions, ob.goal, lean)
+                if "uf_" in text:
+                    extra = solve.analytic_instances(ob.assumptions + [ob.goal])
+                    text = solve.to_smt2(ob.assumptions, ob.goal, extra)
+                    lean = solve.analytic_instances(ob.assumptions + [ob.goal], rounds=1, lean=True)
+                    meta["_lean_smt2"] = solve.to_smt2(ob.assumptions, ob.goal, lean)
+                else:
+                    meta["_lean_smt2"] = None
                 meta["path"] = "".join(str(int(d)) for d in ob.path)
                 k = "canary" if (canary or meta.get("canary")) else kind
                 self.vcs.append(VC(ob.oid, text, meta, k, owner))
@@ -264,10 +268,14 @@ class Run:
             args = {}
             for name, p in sig.parameters.items():
                 kind = t.params.get(name, p.annotation if p.annotation is not inspect.Parameter.empty else "real")
-                if name == "cfg":
-                    continue
                 args[name] = make_value(ctx, kind, name)
-            interp.run_function(t.fn, [], args, label=t.label)
+            try:
+                interp.run_function(t.fn, [], args, label=t.label)
+            except PyRaise as pr:
+                # the theorem's client program must not raise: the path that raises has to be infeasible
+                ctx.oblige("%s/no-exception:%s" % (t.label, type(pr.exc).__name__), False,
+                           clause="the client program raises %r on this path" % (pr.exc,), exc=repr(pr.exc)[:200])
+                return
             ctx.cover("thm-end/" + t.label)
         try:
             paths = Explorer().run(program)
@@ -285,6 +293,33 @@ class Run:
         self.contracts_used |= interp.contracts_used
         self.dropped += interp.dropped
         self.lemmas |= interp.lemmas_used
+
+    def gen_theorems_parallel(self, workers=14):
+        """VC generation of the theorem programs in forked worker processes (each theorem is independent)"""
+        global _CURRENT_RUN
+        if len(self.theorems) < 4:
+            for t in self.theorems:
+                self.gen_theorem(t)
+            return
+        import multiprocessing as mp
+        _CURRENT_RUN = self
+        ctxmp = mp.get_context("fork")
+        with cf.ProcessPoolExecutor(max_workers=min(workers, len(self.theorems)), mp_context=ctxmp) as ex:
+            for part in ex.map(_gen_theorem_job, range(len(self.theorems)), chunksize=1):
+                for oid, smt2, meta, kind, owner in part["vcs"]:
+                    self.vcs.append(VC(oid, smt2, meta, kind, owner))
+                self.engine_errors += part["engine_errors"]
+                self.engine_error_owners += [self.theorems[i] for i in part["engine_error_owner_idx"]]
+                self.paths += part["paths"]
+                self.covered |= part["covered"]
+                self.trusted |= part["trusted"]
+                self.contracts_used |= part["contracts_used"]
+                self.dropped += part["dropped"]
+                self.lemmas |= part["lemmas"]
+                for f in part["functions"]:
+                    if not any(x["function"] == f["function"] for x in self.functions):
+                        self.functions.append(f)
+                solve.USED_AXIOMS |= part["axioms"]
 
     def gen_lemmas(self):
         """proof obligations (base / step) of every sum lemma used in this run"""
@@ -304,6 +339,22 @@ class Run:
         with cf.ProcessPoolExecutor(max_workers=workers) as ex:
             for i, r in ex.map(_solve_job, jobs, chunksize=1):
                 self.vcs[i].result = r
+
+
+_CURRENT_RUN = None
+
+
+def _gen_theorem_job(idx):
+    run = _CURRENT_RUN
+    t = run.theorems[idx]
+    sub = Run(run.prop, run.tier, run.seed)
+    sub.theorems = run.theorems
+    sub.contracts = run.contracts
+    sub.gen_theorem(t)
+    return {"vcs": [(v.oid, v.smt2, v.meta, v.kind, v.owner) for v in sub.vcs],
+            "engine_errors": sub.engine_errors, "engine_error_owner_idx": [idx] * len(sub.engine_errors),
+            "paths": sub.paths, "covered": sub.covered, "trusted": sub.trusted, "contracts_used": sub.contracts_used,
+            "dropped": sub.dropped, "lemmas": sub.lemmas, "functions": sub.functions, "axioms": set(solve.USED_AXIOMS)}
 
 
 def _mk_ob(oid, pc, goal, clause, ctx):
